@@ -102,14 +102,20 @@ def _styled_call(fn, args, kwargs):
     if USAGE["fail_first"] and name in _STATELESS and (inspect.isfunction(fn) or inspect.isclass(fn)):
         bad = _spoilt(args)
         if bad is not None:
+            import sys
             state = np.random.get_state()
+            hook = sys.unraisablehook
+            sys.unraisablehook = lambda *a, **k: None      # (a half-built object may complain in its __del__)
             try:
                 res = fn(*bad, **kwargs)
                 close = getattr(res, "close", None)
                 if callable(close):
                     close()
+                del res
             except Exception:      # noqa: BLE001
                 pass
+            finally:
+                sys.unraisablehook = hook
             np.random.set_state(state)        # the judged call sees the random stream the case prescribes
     if USAGE["kwargs"] and args:
         try:
